@@ -350,9 +350,11 @@ fn enumerate(tier: Tier, idx: u32, of: u32, cx: &mut Cx) -> CaseResult {
     cx.add_evals(1);
     cx.inner_nontrivial += 1;
 
-    // Thorough tier only (it costs a minute): one replay in which the storage stalls for 62 s
-    // in the middle of a backup. How long a backup takes must not shape what it writes.
-    if tier == Tier::Thorough {
+    // One replay in which the storage stalls in the middle of a backup: for 31 s in the quick
+    // tier (the other workers generate meanwhile), for 62 s in the thorough tier. How long a
+    // backup takes must not shape what it writes.
+    let stall_s = if tier == Tier::Thorough { 62.0 } else { 31.0 };
+    {
         let m = crate::probes::plain_meta();
         let mut t = Tree(Default::default());
         t.0.insert("/".into(), crate::tree::Node { kind: crate::tree::Kind::Dir, meta: crate::tree::Meta { mode: 0o755, ..m } });
@@ -370,7 +372,7 @@ fn enumerate(tier: Tier, idx: u32, of: u32, cx: &mut Cx) -> CaseResult {
             ensure!(ops::create_archive(&arch).clean(), "C17/create", "probe");
             // the stall sits at the first block write of the first replay
             let hook: Hook = if i == 0 {
-                let until = std::time::SystemTime::now().duration_since(std::time::UNIX_EPOCH).unwrap().as_secs_f64() + 62.0;
+                let until = std::time::SystemTime::now().duration_since(std::time::UNIX_EPOCH).unwrap().as_secs_f64() + stall_s;
                 Some(Arc::new(SlowAtPrefix { prefix: "d/", until, done: std::sync::atomic::AtomicBool::new(false) }) as Arc<dyn conserve::transport::verif::Interceptor>)
             } else {
                 None
@@ -381,7 +383,7 @@ fn enumerate(tier: Tier, idx: u32, of: u32, cx: &mut Cx) -> CaseResult {
         }
         compare(&trees[0], &trees[1], 1).map_err(|mut f| {
             f.signature = format!("{}/probe-stall", f.signature);
-            f.message = format!("a backup whose storage stalled for a minute wrote something else than the same backup on fast storage: {}", f.message);
+            f.message = format!("a backup whose storage stalled for {stall_s} s wrote something else than the same backup on fast storage: {}", f.message);
             f
         })?;
         crate::engine::force_remove(&sub);
@@ -425,7 +427,7 @@ pub fn prop() -> Prop<Case> {
     Prop {
         id: "C17",
         level: "exploration",
-        rule: "case = (history as C02 with <=10 ops quick / <=20 thorough, worker count in {1,2,4}, 0-23 perturbation bytes). Every step is applied to the one source and then to two fresh archives: A on a current-thread runtime with serialized storage operations, B on a multi-thread runtime with that many workers, storage operations not serialized (conserve's concurrent listing/validation tasks really overlap) and each preceded by a yield/sleep chosen by the perturbation bytes; interruptions are addressed by the ordinal of the mutating operation in both; in 30% of cases every delete/gc step additionally has one failing block removal, addressed by path (the i-th of the sorted blocks the delete is about to remove), identical in both replays. After every archive operation the two directories must have the same relative file set and byte-identical contents, except that start_time is removed from parsed BANDHEADs and end_time from parsed BANDTAILs. Non-trivial = >=2 backups, some band with >=2 hunks and some combined block; distinct by case hash; evaluations = archive-state comparisons; plus fixed probes per run: two backups (the second incremental) of the 10 012-file tree and of the multi-MiB-block tree under both runtime flavours, a wall-clock probe (three backups replayed two seconds before and one second after the mtime of one of the files, the second backup of the first replay on slow storage so that its band's start and end times bracket that mtime), a version of 400 one-block files deleted twice on storage that refuses to remove half of the blocks, and (thorough tier only) one backup replayed on storage that stalls for 62 s at its first block write",
+        rule: "case = (history as C02 with <=10 ops quick / <=20 thorough, worker count in {1,2,4}, 0-23 perturbation bytes). Every step is applied to the one source and then to two fresh archives: A on a current-thread runtime with serialized storage operations, B on a multi-thread runtime with that many workers, storage operations not serialized (conserve's concurrent listing/validation tasks really overlap) and each preceded by a yield/sleep chosen by the perturbation bytes; interruptions are addressed by the ordinal of the mutating operation in both; in 30% of cases every delete/gc step additionally has one failing block removal, addressed by path (the i-th of the sorted blocks the delete is about to remove), identical in both replays. After every archive operation the two directories must have the same relative file set and byte-identical contents, except that start_time is removed from parsed BANDHEADs and end_time from parsed BANDTAILs. Non-trivial = >=2 backups, some band with >=2 hunks and some combined block; distinct by case hash; evaluations = archive-state comparisons; plus fixed probes per run: two backups (the second incremental) of the 10 012-file tree and of the multi-MiB-block tree under both runtime flavours, a wall-clock probe (three backups replayed two seconds before and one second after the mtime of one of the files, the second backup of the first replay on slow storage so that its band's start and end times bracket that mtime), a version of 400 one-block files deleted twice on storage that refuses to remove half of the blocks, and one backup replayed on storage that stalls for 31 s (quick) or 62 s (thorough) at its first block write",
         assumptions: &[
             "evidence about independence from task scheduling (two runtime flavours + generated perturbations), not a proof over all schedules",
         ],
